@@ -881,6 +881,12 @@ class _ExecutorManagerThread(threading.Thread):
             except ProcessLookupError:  # pragma: no cover
                 pass
 
+        # No worker will ever read the call queue again: close our reader end
+        # so that a queue feeder thread blocked writing a large task to the
+        # pipe fails with EPIPE (and exits) instead of staying blocked forever
+        # (same as https://github.com/python/cpython/issues/94777).
+        self.call_queue._reader.close()
+
     def shutdown_workers(self):
         # shutdown all workers in self.processes
 
